@@ -5,7 +5,9 @@
 # prints their verdict lines, and removes the copy.
 set -u
 DIFF=$(realpath "$1"); shift
-WT=/tmp/seedrun.$$
+WT=/tmp/seedrun-wt
+exec 9>/tmp/seedrun.lock; flock 9
+git -C /repo worktree remove --force "$WT" >/dev/null 2>&1; rm -rf "$WT"
 git -C /repo worktree add -q --detach "$WT" HEAD || exit 2
 cleanup() { git -C /repo worktree remove --force "$WT" >/dev/null 2>&1; rm -rf "$WT"; }
 trap cleanup EXIT
